@@ -68,6 +68,16 @@ def gen(rng, ctx):
             cd = G.add_blackboxes(rng, cd, rng.randint(1, 2), p_unconnected=rng.choice([0.0, 0.4]))
         return {"src": "writer", "c": cd}
     nl = N.gen_netlist(rng, "fast", max_stmts=10 if not big else 16, max_inputs=5)
+    if rng.random() < 0.12:
+        # nets named like the parsers' constant nodes
+        cands = nl["wires"] + nl["outputs"] + nl["inputs"]
+        m = {}
+        for w in rng.sample(cands, min(len(cands), rng.randint(1, 2))):
+            nn = rng.choice(["tie0", "tie1", "tie_0", "tie_1", "tie0_0"])
+            if nn not in m.values() and nn not in cands:
+                m[w] = nn
+        nl = N.rename_nets(nl, m)
+        nl["renamed"] = sorted(m.values())
     text = N.render(rng, nl, layout=rng.choice(["free", "free", "writer"]), comments=0.0)
     return {"src": "ast", "nl": nl, "text": text}
 
@@ -124,6 +134,8 @@ def check(case, ctx):
             raise RuntimeError(f"generator left the documented subset: {why}\n{text}")
         if len(ast["stmts"]) < 2:
             ctx.trivial()
+        if ast.get("renamed"):
+            ctx.count("nets_named_like_constants")
     tail = f"\n--- text ---\n{text[:1500]}"
     okf, cf = ctx.call(cg.io.verilog_to_circuit, text, name, blackboxes=bbs, fast=True)
     oks, cs = ctx.call(cg.io.verilog_to_circuit, text, name, blackboxes=bbs)
@@ -192,5 +204,5 @@ def check(case, ctx):
 
 
 def gates(counters, table, tier):
-    need = ["src:ast", "src:writer", "src:lib", "with_constants", "unconnected_pins", "with_blackboxes", "graphs_identical", "functions_compared", "lib:c17", "lib:s27"]
+    need = ["nets_named_like_constants", "src:ast", "src:writer", "src:lib", "with_constants", "unconnected_pins", "with_blackboxes", "graphs_identical", "functions_compared", "lib:c17", "lib:s27"]
     return [f"{k} seen {counters.get(k, 0)} times" for k in need if counters.get(k, 0) < 2]
